@@ -351,6 +351,12 @@ func (w *world) apply(op Op, closeFails map[int]bool) Obs {
 		err := w.b.SetSuccessThresholdSinks(ety(op.Ety), int(op.V))
 		o.Ok, o.Err = err == nil, err != nil
 	case "reopen":
+		if op.Wrap == 1 {
+			// the caller's context is already cancelled: C20 does not make Reopen depend on it
+			c2, cancel := context.WithCancel(ctx)
+			cancel()
+			ctx = c2
+		}
 		for _, h := range w.all {
 			h.mu.Lock()
 			h.reopened = 0
@@ -670,7 +676,7 @@ func genBFS(e *emitter, maxDepth, budget int, withReopen bool, seedOps []Op) (de
 				c := Case{Gen: fmt.Sprintf("bfs-d%d", depth), Types: []int{1, 2}, Ops: hist}
 				if withReopen {
 					// reopen with no failure, then with each object failing in turn
-					c.Ops = append(c.Ops, Op{K: "reopen"})
+					c.Ops = append(c.Ops, Op{K: "reopen"}, Op{K: "reopen", Wrap: 1})
 					nobj := 0
 					for _, o := range hist {
 						if o.K == "regnode" {
@@ -765,7 +771,7 @@ func genRandom(e *emitter, r *hc.Rand, n, maxLen int) {
 				if nobj > 0 && r.Bool() {
 					f = 1 + r.Intn(nobj)
 				}
-				ops = append(ops, Op{K: "reopen", Fail: f})
+				ops = append(ops, Op{K: "reopen", Fail: f, Wrap: r.Intn(2)})
 			}
 		}
 		ops = numberObjs(ops)
